@@ -10,10 +10,10 @@ import parser_common as pc
 ID = 'C03'
 LEAN_MODULE = 'Proofs.C03'
 THEOREMS = ['Fsic.C03.' + n for n in [
-    'type_order', 'promote_spec', 'lhs_variable_endogenous',
-    'classify_spec', 'classify_spec_false_at_witness', 'classify_rejects', 'rejects_symbolError',
-    'rejects_parserError', 'identical_duplicates_accepted', 'names_partition', 'symbol_order',
-    'lags_leads_spec', 'explicit_replace', 'min_only_raise', 'default_range_feasible', 'default_range_enumerated']]
+    'type_order', 'promote_spec', 'lhs_variable_endogenous', 'classify_spec', 'classify_spec_false_at_witness',
+    'classify_rejects', 'combine_error_class', 'symbol_order', 'names_partition', 'lags_leads_spec',
+    'explicit_replace', 'min_only_raise', 'default_range_feasible', 'default_range_enumerated',
+    'default_range_is_solve_range']]
 RULE = ('grammar programs (gen_scripts.gen_program, multi-equation, named periods mixed with integer offsets, LHS '
         'offsets) plus AST mutations {duplicate equation, second different equation for one name, name used with two '
         'kinds, variable first read with a lead and later assigned / read with a lag}, rendered under plain and '
